@@ -2,13 +2,9 @@ import functools
 import math
 import operator
 
-from dask.dataframe.dispatch import make_meta, meta_nonempty
-from dask.dataframe.multi import (
-    _concat_wrapper,
-    _merge_chunk_wrapper,
-    _split_partition,
-    merge_chunk,
-)
+import numpy as np
+from dask.dataframe.dispatch import group_split_dispatch, make_meta, meta_nonempty
+from dask.dataframe.multi import _concat_wrapper, _merge_chunk_wrapper, merge_chunk
 from dask.dataframe.shuffle import partitioning_index
 from dask.utils import apply, get_default_shuffle_method
 from toolz import merge_sorted, unique
@@ -35,6 +31,7 @@ from dask_expr._repartition import Repartition
 from dask_expr._shuffle import (
     RearrangeByColumn,
     _contains_index_name,
+    _is_numeric_cast_type,
     _select_columns_or_index,
 )
 from dask_expr._util import (
@@ -800,6 +797,25 @@ class BroadcastJoin(Merge, PartitionsFiltered):
             # output keys are positions in the selection, not partition numbers
             dsk[(self._name, i)] = (_concat_wrapper, _concat_list)
         return dsk
+
+
+def _split_partition(df, on, nsplits):
+    """Split a partition by the hash of its keys
+
+    The pieces have to line up with the partitions of the broadcast side, which
+    ``RearrangeByColumn`` shuffled: hash the same values, i.e. cast categoricals
+    with numeric categories to float64 as well (``dask.dataframe.multi.
+    _split_partition`` only casts plain numeric columns and would hash the
+    integer categories instead).
+    """
+    keys = _select_columns_or_index(df, on)
+    dtypes = {
+        col: np.float64
+        for col, dtype in keys.dtypes.items()
+        if _is_numeric_cast_type(dtype)
+    }
+    ind = partitioning_index(keys, nsplits, cast_dtype=dtypes or None)
+    return group_split_dispatch(df, ind, nsplits, ignore_index=False)
 
 
 def create_assign_index_merge_transfer():
